@@ -100,6 +100,27 @@ PROPS = {
              "rejected pair, or a retrieval pair whose two requests use different prefixes. Distinct = hash of the decoded case.",
         assumptions=COMMON_ASSUME,
     ),
+    "C19": dict(
+        bin="h_misc", sub="c19", level="exploration",
+        technique="rapidcheck-driven constructive generator of rule-conforming files plus 0-5 injected breaches (public API, raw HDF5 where the API refuses); File::validate() compared with the set of breached entities",
+        level_text="conforming files (1-3 blocks, arrays of rank 1-3 with exactly rank-many conforming descriptors of all kinds, SI / compound "
+                   "/ no array units, calibration complete or absent, tags and multi tags with convertible units incl. more units than "
+                   "dimensions, positions arrays, features with data, nested sources and sections, properties with and without values) "
+                   "must validate without errors; then 0-5 breaches at entities chosen from the tape: descriptor count != rank, tick / "
+                   "label / row count != data length, unsorted ticks and interval <= 0 (raw HDF5), inconvertible tag unit, multi tag "
+                   "without positions, feature without data; soft: non-SI array unit, coefficients without origin and vice versa, offset "
+                   "without unit, property values without unit, missing array unit. Every hard-breached entity must carry an error "
+                   "(descriptor-level rules: as many id-less errors as breached descriptors), no other entity may carry one, every soft "
+                   "breach with a rule must produce a warning, validate() must not throw",
+        level_note="an error is attributed by the entity id of the message; descriptor messages carry no entity id and are counted; "
+                   "breaches that would cancel or invalidate each other (descriptors deleted under a breached tag unit, repeated edits of "
+                   "one array) are not combined",
+        quick=dict(cases=100, size=400, workers=16, timeout=1800),
+        thorough=dict(cases=3000, size=400, workers=16, timeout=14400),
+        rule="tape -> conforming file, breach list. Non-trivial: at least 2 blocks or an array of rank >= 2, at least one hard breach, and a "
+             "breach that is not on the first array / first dimension / first unit / first feature. Distinct = hash of the decoded case.",
+        assumptions=COMMON_ASSUME,
+    ),
     "C07": dict(
         bin="h_access", sub="c07", level="exploration",
         technique="rapidcheck-generated axes and positions (on, one ulp beside, between, beyond coordinates) against a brute-force search over the axis",
